@@ -38,7 +38,7 @@ class Job:
                  extra_cbmc=(), tier="T1", bounds="", model="", timeout=600,
                  mem_gb=12, expect=(), tiers=("quick", "thorough"), replay=None,
                  trusted=(), functions=(), statement="", nobody_ok=(),
-                 carries=None, object_bits=None, post_unwindset=None, pre_unwind=None,
+                 carries=None, object_bits=None, post_unwindset=None, pre_unwind=None, harness_defines=(),
                  known=None):
         self.name = name
         self.props = list(props)
@@ -55,6 +55,7 @@ class Job:
         self.unwind = unwind
         self.pre_unwind = pre_unwind
         self.defines = list(defines)
+        self.harness_defines = list(harness_defines)  # harness and stubs only (sources can be cached)
         self.checks = DEFAULT_CHECKS if checks is None else list(checks)
         self.extra_cbmc = list(extra_cbmc)
         self.tier = tier            # T1 (no input-size bound) or T2 (bounded)
@@ -137,6 +138,13 @@ def build(job, work, log, spec_blocks):
     defs = list(job.defines)
     # 1. sources from /repo, with loop contracts injected
     for rel in job.sources:
+        ckey = (rel, tuple(defs), tuple(job.contracts), tuple(job.loop_tags))
+        with _SRC_LOCK:
+            cached = _SRC_CACHE.get(ckey)
+        if cached and os.path.exists(cached[0]):
+            gbs.append(cached[0])
+            res_injected += cached[1]
+            continue
         out_c = os.path.join(work, rel.replace("/", "__"))
         if job.loop_tags:
             res_injected += [(rel,) + t for t in
@@ -150,12 +158,17 @@ def build(job, work, log, spec_blocks):
         log.write(out)
         if rc != 0:
             raise BuildError("goto-cc failed on %s:\n%s" % (rel, out[-2000:]))
+        os.makedirs(_CACHE_DIR, exist_ok=True)
+        cgb = os.path.join(_CACHE_DIR, "%d.%s.gb" % (abs(hash(ckey)), rel.replace("/", "__")))
+        shutil.copy(gb, cgb)
+        with _SRC_LOCK:
+            _SRC_CACHE[ckey] = (cgb, [t for t in res_injected if t[0] == rel])
         gbs.append(gb)
     # 2. harness and stubs
     for rel in [job.harness] + job.stubs:
         src = os.path.join(VERIF, rel)
         gb = os.path.join(work, rel.replace("/", "__") + ".gb")
-        rc, out, dt = run(["goto-cc", "-c"] + COMMON_CC + defs + inc + [src, "-o", gb],
+        rc, out, dt = run(["goto-cc", "-c"] + COMMON_CC + defs + job.harness_defines + inc + [src, "-o", gb],
                           300, 8, log)
         log.write(out)
         if rc != 0:
@@ -212,6 +225,14 @@ def build(job, work, log, spec_blocks):
             raise BuildError("dfcc failed:\n" + out[-3000:])
         cur = nxt
     return cur, res_injected
+
+
+import threading
+import atexit
+_SRC_CACHE = {}
+_SRC_LOCK = threading.Lock()
+_CACHE_DIR = os.path.join(os.environ.get("VERIF_SCRATCH", "/var/tmp"), "verif.%d.cache" % os.getpid())
+atexit.register(lambda: shutil.rmtree(_CACHE_DIR, ignore_errors=True))
 
 
 class BuildError(Exception):
